@@ -121,6 +121,9 @@ func loadTemplates(c *Ctx, rule string) *tmplSet {
 				if lf := extractListFormatter(gp, fo); lf != nil {
 					lf.name = name
 					ts.funcs[name] = lf
+				} else if why, at := formatterTailMismatch(gp, fo); why != "" {
+					// not of the simple shape, but decidable as far as the trailing separator goes
+					c.Fail(rule, "list formatter "+name+" removes exactly its trailing separator", at, why)
 				}
 			}
 			return true
@@ -413,4 +416,156 @@ func buildSkeletons(c *Ctx, rule string, ts *tmplSet, withSSA bool) *skeletonSet
 		}
 	}
 	return set
+}
+
+
+// formatterTailMismatch decides one thing about a list formatter that extractListFormatter does not recognise: whether the
+// bytes it removes at the end (b.Truncate(b.Len() - K)) are the bytes every iteration appends after the element. Each path
+// through the loop body (conditions are not interpreted: they may depend on the index only, which takes every value) is
+// reduced to the constant text it writes after the element's verb. A path whose tail is not K bytes long leaves part of a
+// separator in the emitted list, or eats into the last element.
+func formatterTailMismatch(p *packages.Package, fo *types.Func) (string, token.Pos) {
+	fd := declOfFunc(p, fo)
+	if fd == nil || fd.Body == nil || fd.Type.Params == nil || len(fd.Type.Params.List) != 1 || len(fd.Type.Params.List[0].Names) != 1 {
+		return "", token.NoPos
+	}
+	info := p.TypesInfo
+	param := info.Defs[fd.Type.Params.List[0].Names[0]]
+	var loop *ast.RangeStmt
+	trunc := int64(-1)
+	var truncPos token.Pos
+	ast.Inspect(fd.Body, func(n ast.Node) bool {
+		switch x := n.(type) {
+		case *ast.RangeStmt:
+			if id, ok := ast.Unparen(x.X).(*ast.Ident); ok && info.Uses[id] == param && loop == nil {
+				loop = x
+			}
+		case *ast.CallExpr:
+			if sel, ok := x.Fun.(*ast.SelectorExpr); ok && sel.Sel.Name == "Truncate" && len(x.Args) == 1 {
+				if b, ok := ast.Unparen(x.Args[0]).(*ast.BinaryExpr); ok && b.Op == token.SUB {
+					if v, ok := constInt(info, b.Y); ok {
+						trunc = v
+						truncPos = x.Pos()
+					}
+				}
+			}
+		}
+		return true
+	})
+	if loop == nil || trunc < 0 {
+		return "", token.NoPos
+	}
+	var ev types.Object
+	if id, ok := loop.Value.(*ast.Ident); ok {
+		ev = info.Defs[id]
+	}
+	if ev == nil {
+		return "", token.NoPos
+	}
+	// conditions must not mention the element: then every path is taken for some index
+	usesElem := func(e ast.Expr) bool {
+		u := false
+		ast.Inspect(e, func(n ast.Node) bool {
+			if id, ok := n.(*ast.Ident); ok && info.Uses[id] == ev {
+				u = true
+			}
+			return true
+		})
+		return u
+	}
+	type path struct {
+		tail    string // constant text written after the last element verb
+		hasElem bool
+		ok      bool
+	}
+	var walk func(stmts []ast.Stmt, in []path) []path
+	emit := func(ps []path, text string, elem bool) []path {
+		var out []path
+		for _, q := range ps {
+			if elem {
+				q.hasElem = true
+				q.tail = text
+			} else {
+				q.tail += text
+			}
+			out = append(out, q)
+		}
+		return out
+	}
+	bad := false
+	walk = func(stmts []ast.Stmt, in []path) []path {
+		cur := in
+		for _, st := range stmts {
+			switch x := st.(type) {
+			case *ast.ExprStmt:
+				call, ok := x.X.(*ast.CallExpr)
+				if !ok {
+					bad = true
+					return cur
+				}
+				if f2, ok := objOf(info, call.Fun).(*types.Func); ok && f2.Pkg() != nil && f2.Pkg().Path() == "fmt" && f2.Name() == "Fprintf" && len(call.Args) == 3 {
+					format, ok := constStr(info, call.Args[1])
+					k := strings.LastIndex(format, "%")
+					if !ok || k < 0 || k+1 >= len(format) {
+						bad = true
+						return cur
+					}
+					cur = emit(cur, format[k+2:], true)
+					continue
+				}
+				if sel, ok := call.Fun.(*ast.SelectorExpr); ok && len(call.Args) == 1 {
+					switch sel.Sel.Name {
+					case "WriteString":
+						if v, ok := constStr(info, call.Args[0]); ok {
+							cur = emit(cur, v, false)
+							continue
+						}
+					case "WriteByte", "WriteRune":
+						if v, ok := constInt(info, call.Args[0]); ok {
+							cur = emit(cur, string(rune(v)), false)
+							continue
+						}
+					}
+				}
+				bad = true
+				return cur
+			case *ast.IfStmt:
+				if x.Init != nil || usesElem(x.Cond) {
+					bad = true
+					return cur
+				}
+				a := walk(x.Body.List, cur)
+				var b []path
+				switch e := x.Else.(type) {
+				case nil:
+					b = cur
+				case *ast.BlockStmt:
+					b = walk(e.List, cur)
+				default:
+					bad = true
+					return cur
+				}
+				cur = append(append([]path{}, a...), b...)
+			default:
+				bad = true
+				return cur
+			}
+		}
+		return cur
+	}
+	paths := walk(loop.Body.List, []path{{ok: true}})
+	if bad || len(paths) == 0 {
+		return "", token.NoPos
+	}
+	for _, q := range paths {
+		if !q.hasElem {
+			return "", token.NoPos
+		}
+	}
+	for _, q := range paths {
+		if int64(len(q.tail)) != trunc {
+			return fmt.Sprintf("the formatter cuts %d bytes off the end of the list, but one path through its loop ends an element with %q (%d bytes): when the last element takes that path, the emitted list ends in a stray separator or loses part of its last element, and the emitted Go does not parse", trunc, q.tail, len(q.tail)), truncPos
+		}
+	}
+	return "", token.NoPos
 }
